@@ -102,6 +102,10 @@ class EffectivePotential(ABC):
         """
 
         self.derivativeSettings = copy.copy(settings)
+        # helpers.derivative insists on a float scale; accept any real number from the user
+        self.derivativeSettings.temperatureVariationScale = float(
+            settings.temperatureVariationScale
+        )
 
         # Interpret the field scale input and make it correct shape
         if isinstance(settings.fieldValueVariationScale, float):
